@@ -203,7 +203,8 @@ def flag(it, v, name):
 def depth(it, v, name):
     if v == 'sym':
         x = z3.Int(name)
-        it.assume(z3.And(x >= 0, x <= (1 << 64) - 1))
+        # recursion counters: callers start them at 0; values within 2^62 of usize::MAX are outside the claim
+        it.assume(z3.And(x >= 0, x <= (1 << 62)))
         return x
     return int(v)
 
